@@ -35,9 +35,12 @@ def family_classes(corpus):
     return cl
 
 
+QUICK = [False]        # set by the driver: the quick tier leaves the heavy (deep-input) family to the thorough tier
+
+
 def _subcorpus(rng, corpus):
     classes = family_classes(corpus)
-    names = sorted(classes)
+    names = sorted(n for n in classes if not (QUICK[0] and n.startswith('deep_')))
     chosen = []
     for _ in range(_weighted(rng, [(1, 5), (2, 4), (3, 1)])):
         c = names[rng.randrange(len(names))]
@@ -80,7 +83,8 @@ def _strategy(rng, est):
         return {'kind': k, 'p': rng.choice([0.001, 0.003, 0.01, 0.02, 0.05])}
     if k == 'pct':
         return {'kind': k, 'd': rng.choice([1, 2, 3, 5]), 'est': est}
-    return {'kind': k, 'q': rng.choice([1, 7, 50, 400, 2000])}
+    # (a quantum of 1 event = one thread hand-over per line costs ~80 us each: 20 s for a 250 k-event run; 3 is the floor)
+    return {'kind': k, 'q': rng.choice([3, 7, 50, 400, 2000])}
 
 
 _HINTS = {}
@@ -109,8 +113,23 @@ def gen_s1(seed, corpus, ref, instr_frac=0.1, sa_frac=0.0):
     if gran == 'instr':
         # bytecode granularity costs ~4.6x the events: keep such runs short
         clients = [cl[:3] for cl in clients]
+    # heavy ops (deep inputs): at most one per client, none at bytecode granularity
+    light = _light_ops(sub)
+    seen_heavy = False          # one heavy op per run
+    for cl in clients:
+        for j, op in enumerate(cl):
+            if (_HINTS.get(O.op_key(op)) or ['ok', 0])[1] > HEAVY_EV:
+                if seen_heavy or gran == 'instr' or QUICK[0]:
+                    cl[j] = light[rng.randrange(len(light))]
+                else:
+                    seen_heavy = True
     scope = ['repo'] + (['sqlalchemy', 'copy'] if rng.random() < sa_frac else [])
     est = sum(_ev(ref, op, gran) for cl in clients for op in cl)
+    if seen_heavy:
+        # millions of events: only strategies with few hand-overs
+        strat_override = {'kind': 'pct', 'd': rng.choice([1, 2, 3]), 'est': est} if rng.random() < 0.5 else {'kind': 'bernoulli', 'p': 0.0005}
+    else:
+        strat_override = None
     spec = {
         'cmd': 'sim', 'property': 'C20', 'sub': 'S1', 'seed': seed, 'hashseed': hashseed_for(seed),
         'families': fams, 'clients': clients, 'gran': gran, 'scope': scope,
@@ -120,10 +139,13 @@ def gen_s1(seed, corpus, ref, instr_frac=0.1, sa_frac=0.0):
         'strategy': _strategy(rng, est), 'sched_seed': rng.randrange(1 << 30),
         'faults': [], 'gcs_at': [],
     }
+    if strat_override:
+        spec['strategy'] = strat_override
     if rng.random() < 0.4:
         for _ in range(_weighted(rng, [(1, 6), (2, 3), (3, 1)])):
             c = rng.randrange(ncl)
-            oi = rng.randrange(len(clients[c]))
+            # a third of the faults go into a client's first op: lazy initialisation happens at first use
+            oi = 0 if rng.random() < 0.33 else rng.randrange(len(clients[c]))
             n = _ev(ref, clients[c][oi], gran)
             kind = _weighted(rng, [('abort', 6), ('mem', 2), ('rec', 2)])
             spec['faults'].append([c, oi, rng.randint(1, n), kind])
@@ -160,7 +182,8 @@ def gen_s2(seed, corpus, ref):
         'strategy': {'kind': 'none'}, 'sched_seed': 0, 'faults': [], 'gcs_at': [],
     }
     if rng.random() < 0.5:
-        for oi in sorted(rng.sample(range(n), min(n, rng.randint(1, 4)))):
+        first = [rng.randrange(2)] if rng.random() < 0.4 else []
+        for oi in sorted(set(first + rng.sample(range(n), min(n, rng.randint(1, 4))))):
             k = _ev(ref, ops[oi], 'line')
             kind = _weighted(rng, [('abort', 6), ('mem', 2), ('rec', 2)])
             spec['faults'].append([0, oi, rng.randint(1, k), kind])
@@ -244,6 +267,8 @@ def gen_s2_long(seed, corpus, ref=None):
     for _ in range(3):
         extra += corpus['families'][fam_names[rng.randrange(len(fam_names))]]
     n = rng.randint(120, 250)
+    src = _light_ops(src)
+    extra = _light_ops(extra) if extra else extra
     ops = []
     for _ in range(n):
         if extra and rng.random() < 0.15:
@@ -257,7 +282,8 @@ def gen_s2_long(seed, corpus, ref=None):
         'strategy': {'kind': 'none'}, 'sched_seed': 0, 'faults': [], 'gcs_at': [], 'lazy_events': True, 'long': True,
     }
     if rng.random() < 0.6:
-        for oi in sorted(rng.sample(range(n), rng.randint(1, 5))):
+        first = [rng.randrange(3)] if rng.random() < 0.5 else []       # first uses: lazy initialisation windows
+        for oi in sorted(set(first + rng.sample(range(n), rng.randint(1, 5)))):
             kind = _weighted(rng, [('abort', 6), ('mem', 2), ('rec', 2)])
             spec['faults'].append([0, oi, rng.randint(1, _ev(None, ops[oi], 'line')), kind])
     if rng.random() < 0.3:
@@ -265,3 +291,30 @@ def gen_s2_long(seed, corpus, ref=None):
             oi = rng.randrange(n)
             spec['gcs_at'].append([0, oi, rng.randint(1, _ev(None, ops[oi], 'line'))])
     return spec
+
+
+HEAVY_EV = 40000
+
+
+def _light_ops(ops):
+    """Ops whose static hint says they take more than HEAVY_EV line events (the deep inputs) stay out of the long,
+    un-instrumented histories: there they would only cost seconds each; they are exercised by S1 runs and S3."""
+    out = [op for op in ops if (_HINTS.get(O.op_key(op)) or ['ok', 0])[1] <= HEAVY_EV]
+    return out or list(ops)
+
+
+def gen_family_history(seed, corpus, fam):
+    """Systematic counterpart of the random histories: ALL ops of one family (capped) in one process, shuffled, twice, with
+    shared catalogs and renderers: every ordered pair of family members is met.  No faults, no event delivery: cheap enough
+    to be done for every family in every quick run."""
+    rng = random.Random('C20/FAMHIST/%d/%s' % (seed, fam))
+    lst = _light_ops(corpus['families'][fam])
+    rng.shuffle(lst)
+    lst = lst[:45]
+    second = list(lst)
+    rng.shuffle(second)
+    return {
+        'cmd': 'sim', 'property': 'C20', 'sub': 'S2', 'seed': seed, 'hashseed': hashseed_for(seed), 'families': ['famhist:' + fam],
+        'clients': [lst + second], 'gran': 'line', 'scope': ['repo'], 'cat_mode': 'shared', 'rnd_mode': 'shared', 'meta_share': True,
+        'strategy': {'kind': 'none'}, 'sched_seed': 0, 'faults': [], 'gcs_at': [], 'lazy_events': True, 'long': True, 'famhist': True,
+    }
